@@ -261,7 +261,7 @@ PROPS = {
     "C16": {
         "clauses": [r6.check_matrix, r6.check_feature_stability, r6.check_cfg_taint, r3.check_inventory, guards(), both(r3.check_underflow_asserts), both(r3.check_radix), both(r3.check_div_guards), r3.check_operand_overflow, selftest("R3c-operand-overflow"), r3.check_float_guess_guard],
         "not_decided": "equality of results where it rests on arithmetic (Newton fixpoint independent of the guess; float helper agreement; absence of overflow so that "
-        "overflow-check and wrapping builds agree); the 32-bit-digit variants of the code are analysed in the thorough tier only (i686 build through -Zbuild-std)",
+        "overflow-check and wrapping builds agree); the 32-bit-digit variants of the code are analysed through an i686 build (-Zbuild-std): one configuration in the quick tier, all in the thorough tier",
         "level_text": "Decides: all ten documented feature configurations type-check; enabling serde/rand/quickcheck/arbitrary changes the canonical MIR of no function that "
         "exists without them (std and no_std); every function whose code differs between std and no_std lets configuration-dependent values reach only "
         "capacity estimates or the Newton initial guess, never its result; explicit panic sites outside debug-only code are the same in dev and release "
